@@ -40,7 +40,7 @@ TRUSTED = [
     "not in the trace, hence not compared: which expression an `alias` declare lowered (its cid is an input of the operation), the reads of node_mapping by "
     "lookup_cid outside push_select (only their results, inside the pushed transforms, are checked against the guard); the key -> position mapping of "
     "utils/toposort.rs is redone in python (c16_trace.toposort_case)",
-    "needs hooks/selected-all.diff (not in /repo yet): without it the check fails closed; lower_expr / lower_sorts / lower_range (PL expression -> RQ expression) and "
+    "all hooks it needs are in /repo (120eb8c, 1b54dc3, 02d89ec, 47b05aa); without any of them the check fails closed; lower_expr / lower_range (PL expression -> RQ expression) and "
     "TableDepsCollector's traversal are not modelled: their results are compared (ids against node_mapping at every read; dependencies against the tables instantiated)",
     "the resolver's scoping is not modelled: that every operation stays within the visible set (vstep) is established per program by the strict replay; "
     "the consequence rq_wf is then a theorem (strict_runs_emit_wf_rq), and the strict verdict is cross-checked against rq_diags on every program",
